@@ -333,7 +333,7 @@ func (m *matchers) accept(acc string, nontrivp *bool, classesp *[]string) error 
 }
 
 var stats = rig.NewStats("C15",
-	"rapid draws a version list (1-4 of v1 v11 v2 1.0 a/b a V1 v1.1, each with or without leading and trailing '/'), a parameter name (or none), an Accept key, 1-6 paths ('/'+listed version+tail, other versions, near misses: no leading slash, no trailing slash, version recurring later, other letter case, proper prefix of a version; '' '*' '/'; arbitrary bytes) and 1-6 Accept headers (media type grammar with the key present / upper-case / absent, quoted values, tails that spoil an otherwise flawless header - a parameter without value, a duplicate of the key, an unterminated quote, a name* form -, lone quotes, junk, arbitrary strings). In a third of the cases a sibling pair of matchers (other version list, Accept key and parameter name) is asked about every path / header just before the subject and judged the same way; headers then carry both keys with different values. Oracle: path matcher accepts iff the path begins with '/'+version+'/' for the first listed such version, then URL.Path loses exactly '/'+version and the parameter holds '/'+version; header matcher accepts iff mime.ParseMediaType succeeds and params[key] is a listed version; on rejection path and parameters (pre-populated) are byte-identical. Non-trivial: a path that starts with, or is a proper prefix of, '/'+a listed version, or an Accept header that parses; distinct by hash of the case",
+	"rapid draws a version list (1-4 of v1 v11 v2 1.0 a/b a V1 v1.1, each with or without leading and trailing '/'), a parameter name (or none), an Accept key, 1-6 paths ('/'+listed version+tail, other versions, near misses: no leading slash, no trailing slash, version recurring later, other letter case, proper prefix of a version; '' '*' '/'; arbitrary bytes) and 1-6 Accept headers (media type grammar with the key present / upper-case / absent, quoted values, tails that spoil an otherwise flawless header - a parameter without value, a duplicate of the key, an unterminated quote, a name* form -, lone quotes, junk, arbitrary strings). In a third of the cases a sibling pair of matchers (other version list, Accept key and parameter name) is asked about every path / header just before the subject and judged the same way; headers then carry both keys with different values. Oracle: path matcher accepts iff the path begins with '/'+version+'/' for the first listed such version, then URL.Path loses exactly '/'+version and the parameter holds '/'+version; header matcher accepts iff mime.ParseMediaType succeeds and params[key] is a listed version; on rejection path and parameters (pre-populated) are byte-identical. Non-trivial: a path that starts with, or is a proper prefix of, '/'+a listed version, or an Accept header that parses; distinct by hash of the case. Later additions to the generated domain: One list in eight has 6-60 generated names (plain and multi-segment) around the usual ones.",
 	"mime.ParseMediaType (standard library) is the trusted reference for Accept parsing",
 	"the version '/' (empty name) and empty version lists are outside the stated domain")
 
